@@ -176,7 +176,7 @@ fn l_reply(d: &Diag, o: &LOut) -> (String, usize) {
     } else {
         format!("{}|*|*|{}|*", signs_str(&normalise_signs(d, &free, &o.signs)), if o.knot { 1 } else { 0 })
     };
-    (format!("{}|{}|{}", comps_str(&o.comps), nfree, tail), nfree)
+    (format!("{}|{}|{}|ck=1", comps_str(&o.comps), nfree, tail), nfree)
 }
 
 /// property oracle + model line for a valid, consistently oriented diagram without resolved crossings
@@ -249,6 +249,8 @@ fn case_r(s: &mut Sink, d: &Diag) {
     let l = real_link(d);
     let mut toks = Vec::with_capacity(1 << n);
     let mut bad = vec![];
+    let mut hash: u64 = 0;
+    let hstep = |h: u64, x: u64| (h * 31 + x + 1) % 1_000_000_007;
     let unresolved: Vec<usize> = (0..d.len()).filter(|&i| matches!(d[i].0, CT::X | CT::Xm)).collect();
     for k in 0..(1usize << n) {
         let st = State::from_iter((0..n).map(|i| Bit::from((k >> i) & 1 == 1)));
@@ -262,6 +264,12 @@ fn case_r(s: &mut Sink, d: &Diag) {
                 if !(cn == 0 && all_circ && edge_sets(&comps) == want && comps.len() == want.len()) {
                     bad.push(format!("state {} -> {} (expected {} circles)", k, comps_str(&comps), want.len()));
                 }
+                if all_circ {
+                    let mut mins: Vec<u64> = comps.iter().map(|p| p.min_edge() as u64).collect();
+                    mins.sort();
+                    hash = hstep(hash, 0);
+                    for m in mins { hash = hstep(hash, m); }
+                }
                 toks.push(if all_circ { comps.len().to_string() } else { "!".into() });
             }
             None => { bad.push(format!("state {} -> panic", k)); toks.push("!".into()); }
@@ -271,7 +279,7 @@ fn case_r(s: &mut Sink, d: &Diag) {
         &txt, &bad.join("; "));
     s.count(&format!("R.n.{:02}", n));
     s.count_n("R.states", 1 << n);
-    s.case(&format!("R {}", txt), &toks.join(","), n > 0);
+    s.case(&format!("R {}", txt), &format!("{}|h={}|ck=1", toks.join(","), hash), n > 0);
 }
 
 /// partially resolved diagram: components only
@@ -283,7 +291,7 @@ fn case_c(s: &mut Sink, d: &Diag) {
         Some(comps) => {
             s.oracle(edge_sets(&comps) == uf_classes(d) && comps.iter().all(|p| p.is_circle()),
                 "components of a partially resolved diagram are the orbits of the strand-through-crossing relation", &txt, &comps_str(&comps));
-            s.case(&format!("C {}", txt), &comps_str(&comps), true);
+            s.case(&format!("C {}", txt), &format!("{}|ck=1", comps_str(&comps)), true);
         }
         None => {
             s.oracle(false, "components returns on a valid partially resolved diagram", &txt, "panic");
